@@ -207,14 +207,18 @@ func (r *txRunner) apply(op txOp) {
 		err := r.ch.QueuePackage(r.ctxFor(op), pkg)
 		before := r.npkts
 		r.wires()
-		if op.Ctx == "" && r.npkts-before != op.Npk && op.Body > 0 {
+		if r.npkts-before != op.Npk && op.Body > 0 {
 			r.drift++
 		}
 		r.tr.Emit(Ev{"ev": "QueueEnd", "st": errClass(err), "typ": int(r.ch.CurrentHeaderType)})
 	case "Flush":
 		r.tr.Emit(Ev{"ev": "Flush", "n": 0, "ctx": cx, "typ": int(r.ch.CurrentHeaderType)})
 		err := r.ch.SendRemainingPackets(r.ctxFor(op))
+		before := r.npkts
 		r.wires()
+		if r.npkts-before != op.Npk && op.Body > 0 { // model drift (TxPath.tla predicts the packets of every step)
+			r.drift++
+		}
 		r.tr.Emit(Ev{"ev": "FlushEnd", "st": errClass(err), "typ": int(r.ch.CurrentHeaderType)})
 		r.msg, r.wired = nil, 0
 		r.nmsg++
